@@ -1,14 +1,25 @@
 """C07 interpolation (DESIGN §4 C07)."""
 from vt.props import common_spaces as cs
-CLAIM = 'interpolate() of float-light spaces on the real code: bounds, endpoints, aliasing for every in-bounds double pair and t in [0,1]'
-OUT = 'SO3 slerp, Sphere, Klein embedding, Dubins/RS (C14), dims>2, re-parameterisation/proportional-distance laws for float spaces unless listed'
+CLAIM = ('Real interpolate() code of SO(2), R^n (n<=2), Time, Discrete for EVERY in-bounds pair and every t in [0,1]: result satisfies the '
+         'bounds, t=0 yields the first state, output aliasing either input gives bit-identical results (float operations abstracted by '
+         'uninterpreted functions for that equality claim), Discrete: t=1 yields the second state and the value lies between the endpoints.')
+OUT = ('t=1 and proportional-distance/re-parameterisation laws for float spaces (rounding proofs: thorough tier attempts t=1 for SO2), '
+       'SO3 slerp, Sphere, Torus, Mobius, Klein, Dubins/RS (C14), dims>2, compound delegation (thorough)')
 ASSUMPTIONS = []
 def queries(tier):
     qs = [cs.so2('interp_bounds', tier, bound='every in-bounds pair, every t in [0,1]'),
-          cs.so2('t0', tier, bound='every in-bounds pair')]
+          cs.so2('t0', tier, bound='every in-bounds pair'),
+          cs.rv('interp_bounds', tier, 1, bound='dim 1, symbolic bounds, every in-bounds pair, t in [0,1]', backends=('cadical', 'kissat')),
+          cs.rv('t0', tier, 2, bound='dim 2'),
+          cs.misc('time_interp', tier, bound='every in-bounds pair, t in [0,1]', backends=('cadical', 'kissat')),
+          cs.misc('discrete_interp', tier, bound='bounds within [-1000,1000], every pair, t in [0,1]', backends=('cadical', 'kissat'))]
     for al in (1, 2):
         q = cs.so2('interp_alias', tier, bound='every in-bounds pair, every t in [0,1]; output aliases input %d' % al, defines={'ALIAS': al}, uf=('fmul', 'fadd', 'fsub'),
                    note='fmul, fadd, fsub abstracted by uninterpreted functions (sound for this equality claim)')
+        q.name += '[%d]' % al
+        qs.append(q)
+        q = cs.rv('interp_alias', tier, 2, bound='dim 2; output aliases input %d' % al, defines={'ALIAS': al}, uf=('fmul', 'fadd', 'fsub'),
+                  note='fmul, fadd, fsub abstracted by uninterpreted functions (sound for this equality claim)')
         q.name += '[%d]' % al
         qs.append(q)
     if tier == 'thorough':
